@@ -104,6 +104,7 @@ def sar_transition_points(bits, vmax, ks):
 
 def gen_case(r, kind, bits, rng_v, dense=False, frame=None):
     vmin, vmax = rng_v
+    vmin_given = vmin
     span = vmax - vmin
     M = 2 ** bits - 1
     ks = {0, 1, 2, M // 2, M - 1, M}
@@ -112,6 +113,8 @@ def gen_case(r, kind, bits, rng_v, dense=False, frame=None):
         ks.add(r.randrange(0, M + 1))
     pts = transition_points(bits, vmin, vmax, sorted(ks))
     if kind != "simple":
+        vmin = 0.0      # the SAR converters ignore the range minimum: their transitions are k * vmax / 2^bits
+        span = vmax
         sk = {1, 2, 3, 2 ** (bits - 1), 2 ** (bits - 1) + 2 ** (bits - 2), 2 ** bits - 1, 2 ** bits}
         for _ in range(n_extra + 2):
             sk.add(r.randrange(1, 2 ** bits + 1))
@@ -145,13 +148,23 @@ def gen_case(r, kind, bits, rng_v, dense=False, frame=None):
                 seen_b.add(b)
                 xs2.append(v)
         xs = xs2
-    case = dict(kind=kind, bits=bits, vmin=hexf(vmin), vmax=hexf(vmax), xs=[hexf(x) for x in xs],
+    case = dict(kind=kind, bits=bits, vmin=hexf(vmin_given), vmax=hexf(vmax), xs=[hexf(x) for x in xs],
                 path=r.choice(["model", "func"]), frame=frame)
     if kind == "simple" and r.random() < 0.2:
         # an explicit output type (data_type= of the model / dtype= of the function) at least as wide as the
         # one get_dtype chooses: everything the property says must still hold
         need = 8 if bits <= 8 else 16 if bits <= 16 else 32 if bits <= 32 else 64
         case["data_type"] = r.choice([w for w in (8, 16, 32, 64) if w >= need])
+    if kind == "sarp":
+        # per-bit reference perturbations strengths[i] + noises[i] * z_i: all distinct, of the size of the bit's own
+        # reference voltage, so that a wrong index or a wrong operand changes codes
+        st, no, zs = [], [], []
+        for i in range(bits):
+            scale = abs(vmax) * 2.0 ** -(i + 2)
+            st.append(r.choice([0.0, 1.0, -1.0, 0.5, -0.25]) * scale * (1 + r.randrange(0, 8) / 8))
+            no.append(r.choice([0.0, 1.0, 0.5, 0.125]) * scale * (1 + r.randrange(0, 8) / 8))
+            zs.append(r.choice([-1.5, -0.5, 0.0, 0.25, 1.0, 2.0]))
+        case.update(strengths=[hexf(v) for v in st], noises=[hexf(v) for v in no], zs=[hexf(v) for v in zs])
     if kind == "sar0" and case["path"] == "model" and r.random() < 0.12:
         # the model refuses tuples that do not have adc_bit_resolution elements (ValueError)
         case[r.choice(["n_strengths", "n_noises"])] = bits + r.choice([-1, 1])
@@ -175,14 +188,18 @@ def gen_cases(ctx: Ctx, budget: int):
     for bits in range(4, 65):
         cases.append(gen_case(r, "simple", bits, RANGES_FIXED[bits % len(RANGES_FIXED)], frame="float64"))
         cases.append(gen_case(r, "simple", bits, gen_range(r)))
+    def sar_range(vmax):
+        # the SAR converters use only the range maximum; a non-zero minimum must not change anything
+        return (r.choice([0.0, 0.0, 0.0, -1.0, 0.25, -vmax / 2, vmax / 4]), vmax)
+
     for bits in range(4, 65):
-        cases.append(gen_case(r, "sar", bits, (0.0, r.choice([1.0, 8.0, 3.3, 5.0, 10.0, r.uniform(0.1, 20)]))))
-        if bits % 2 == 0:
-            cases.append(gen_case(r, "sar0", bits, (0.0, r.choice([1.0, 4.0, 8.0, 5.0, r.uniform(0.1, 20)]))))
+        cases.append(gen_case(r, "sar", bits, sar_range(r.choice([1.0, 8.0, 3.3, 5.0, 10.0, r.uniform(0.1, 20)]))))
+        nk = "sar0" if bits % 2 == 0 else "sarp"
+        cases.append(gen_case(r, nk, bits, sar_range(r.choice([1.0, 4.0, 8.0, 5.0, r.uniform(0.1, 20)]))))
     while len(cases) < budget:
-        kind = r.choices(["simple", "sar", "sar0"], [6, 2, 1])[0]
+        kind = r.choices(["simple", "sar", "sar0", "sarp"], [6, 2, 1, 1])[0]
         bits = r.randrange(4, 65)
-        rv = gen_range(r) if kind == "simple" else (0.0, r.choice([2.0, 8.0, 0.5, r.uniform(0.01, 50.0)]))
+        rv = gen_range(r) if kind == "simple" else sar_range(r.choice([2.0, 8.0, 0.5, r.uniform(0.01, 50.0)]))
         cases.append(gen_case(r, kind, bits, rv))
     return cases
 
@@ -209,8 +226,16 @@ def exhaustive_cases(ctx: Ctx, max_bits: int):
 
 # ------------------------------------------------------------------------------------------ Coq emission
 
-KIND = {"simple": "Simple", "sar": "Sar", "sar0": "Sar0"}
-CASE_KEYS = ("kind", "bits", "vmin", "vmax", "xs", "path", "frame", "data_type", "n_strengths", "n_noises")
+KIND = {"simple": "Simple", "sar": "Sar", "sar0": "Sar0", "sarp": "Sarp"}
+CASE_KEYS = ("kind", "bits", "vmin", "vmax", "xs", "path", "frame", "data_type", "n_strengths", "n_noises",
+             "strengths", "noises", "zs")
+
+
+def perturbations(c):
+    """strengths[i] + noises[i] * z_i in binary64, exactly as the stand-in for np.random.normal computes it."""
+    return [float.fromhex(s) + float.fromhex(n) * float.fromhex(z)
+            for s, n, z in zip(c.get("strengths", []), c.get("noises", []), c.get("zs", []))]
+
 
 
 def emit_case(c, obs) -> str:
@@ -224,7 +249,8 @@ def emit_case(c, obs) -> str:
             f"vmax := {bf(float.fromhex(c['vmax']))}; xs := {xs}; observed := {o}; twin := {tw}; "
             f"via_model := {core.cbool(c.get('path', 'model') == 'model')}; "
             f"data_type := {'None' if c.get('data_type') is None else '(Some %d)' % c['data_type']}; "
-            f"n_strengths := {c.get('n_strengths', c['bits'])}; n_noises := {c.get('n_noises', c['bits'])} |}}")
+            f"n_strengths := {c.get('n_strengths', c['bits'])}; n_noises := {c.get('n_noises', c['bits'])}; "
+            f"perturb := {core.clist(bf(v) for v in perturbations(c))} |}}")
 
 
 def emit_file(pairs) -> str:
@@ -425,8 +451,8 @@ def search(ctx: Ctx):
     cases = []
     for bits in range(4, 65):
         for _ in range(3):
-            kind = r.choice(["simple", "simple", "sar", "sar0"])
-            rv = gen_range(r) if kind == "simple" else (0.0, r.uniform(0.01, 50.0))
+            kind = r.choice(["simple", "simple", "sar", "sar0", "sarp"])
+            rv = gen_range(r) if kind == "simple" else (r.choice([0.0, 0.0, -1.0, 0.25]), r.uniform(0.3, 50.0))
             cases.append(gen_case(r, kind, bits, rv, dense=True))
     cases += exhaustive_cases(ctx, 8)
     mism, viol, pairs = correspondence(ctx, cases, tag="s")
